@@ -88,6 +88,9 @@ func c15Gen(x *mcx.Exec, method string, max int) J {
 	// further operations with their own ids in other path items: lookups by id are then issued in several orders on one
 	// analyzer (an index of ids that is built lazily or partially is only wrong for a later lookup)
 	{
+		// a path spelled so that any normalisation (cleaning, unescaping, case folding) alters it
+		paths["/C d/~e/./{x}/"] = J{"parameters": []any{c15Param("header:limit", "odd")},
+			"get": J{"operationId": "opOdd", "parameters": []any{c15Param("query:id", "oddq")}, "responses": J{"200": J{"description": "ok"}}}}
 		paths["/0first"] = J{"get": J{"operationId": "opFirst", "parameters": []any{c15Param("query:limit", "first")}, "responses": J{"200": J{"description": "ok"}}}}
 		paths["/c"] = J{"get": J{"operationId": "opC", "parameters": []any{c15Param("query:limit", "c")}, "responses": J{"200": J{"description": "ok"}}}}
 		paths["/d"] = J{"parameters": []any{c15Param("header:id", "pathd")},
@@ -168,7 +171,7 @@ func c15Check(docJSON string, pol mcrt.Policy) (sig, what string, nontrivial boo
 		method, path string
 	}
 	var queries []query
-	for _, p := range []string{"/a/{id}", "/b", "/nope"} {
+	for _, p := range []string{"/a/{id}", "/b", "/nope", "/C d/~e/./{x}/"} {
 		for _, m := range methods7 {
 			queries = append(queries, query{m, p})
 		}
@@ -287,7 +290,7 @@ func c15Check(docJSON string, pol mcrt.Policy) (sig, what string, nontrivial boo
 		}
 	}
 	// by operation id
-	for _, id := range []string{"theOp", "no-such-op", "opC", "opD", "theOp", "opFirst"} {
+	for _, id := range []string{"theOp", "no-such-op", "opC", "opOdd", "opD", "theOp", "opFirst"} {
 		var pi, op map[string]any
 		for _, p := range h.SortedKeys(paths) {
 			for _, m := range methods7 {
